@@ -204,9 +204,47 @@ func (s *clientSocket) maybeUpgrade(transports []string, upgrades []string) {
 	}
 }
 
+// A transport that can stop delivering packets for a while (long-polling: stop polling).
+// This is optional: a transport that doesn't implement it is upgraded from without pausing.
+type pausableTransport interface {
+	// The returned channel is closed once the transport will not hand any more packets to the
+	// onPacket callback until Resume is called.
+	Pause() (stopped <-chan struct{})
+	Resume()
+}
+
 func (s *clientSocket) tryUpgradeTo(t ClientTransport, c *transport.Callbacks) (ok bool) {
-	done := make(chan struct{})
-	once := new(sync.Once)
+	var (
+		done    = make(chan struct{}) // The upgrade took place.
+		expired = make(chan struct{}) // The upgrade failed.
+
+		// Either the probe succeeds and the transports are swapped, or the upgrade fails. Never both.
+		decideMu sync.Mutex
+		decided  bool
+		decide   = func() (first bool) {
+			decideMu.Lock()
+			defer decideMu.Unlock()
+			first = !decided
+			decided = true
+			return
+		}
+
+		// While the new transport is being probed the current one stops delivering packets, and the
+		// transports are swapped only once it has stopped: the packets of a poll that is answered late
+		// must not arrive in between (or after) the packets received from the new transport.
+		// The server sends a NOOP packet when it receives the probe. That completes the poll that is in flight.
+		paused  pausableTransport
+		stopped <-chan struct{}
+	)
+
+	fail := func(err error) {
+		close(expired)
+		if paused != nil {
+			paused.Resume()
+		}
+		t.Close()
+		s.onError(err)
+	}
 
 	onPacket := func(packet *parser.Packet) {
 		s.debug.Log("maybeUpgrade", "packet received", packet)
@@ -215,16 +253,28 @@ func (s *clientSocket) tryUpgradeTo(t ClientTransport, c *transport.Callbacks) (
 		case parser.PacketTypePong:
 			pong := string(packet.Data)
 			if pong != "probe" {
-				s.onError(wrapInternalError(fmt.Errorf("upgrade failed: invalid packet received: pong with invalid data: '%s'", pong)))
-				t.Close()
+				if decide() {
+					fail(wrapInternalError(fmt.Errorf("upgrade failed: invalid packet received: pong with invalid data: '%s'", pong)))
+				}
 				return
 			}
 
-			once.Do(func() { close(done) })
+			if stopped != nil {
+				select {
+				case <-stopped:
+				case <-expired:
+					return
+				}
+			}
+			if !decide() {
+				return
+			}
+			close(done)
 			s.finishUpgradeTo(t, c)
 		default:
-			t.Close()
-			s.onError(wrapInternalError(fmt.Errorf("upgrade failed: invalid packet received: packet type: %d", packet.Type)))
+			if decide() {
+				fail(wrapInternalError(fmt.Errorf("upgrade failed: invalid packet received: packet type: %d", packet.Type)))
+			}
 		}
 	}
 
@@ -243,7 +293,6 @@ func (s *clientSocket) tryUpgradeTo(t ClientTransport, c *transport.Callbacks) (
 	if s.testWaitUpgrade {
 		time.Sleep(1001 * time.Millisecond)
 	}
-	go t.Run()
 
 	ping, err := parser.NewPacket(parser.PacketTypePing, false, []byte("probe"))
 	if err != nil {
@@ -251,16 +300,35 @@ func (s *clientSocket) tryUpgradeTo(t ClientTransport, c *transport.Callbacks) (
 		s.onError(wrapInternalError(fmt.Errorf("upgrade failed: %w", err)))
 		return
 	}
+
+	s.transportMu.RLock()
+	paused, _ = s.transport.(pausableTransport)
+	s.transportMu.RUnlock()
+	if paused != nil {
+		stopped = paused.Pause()
+	}
+
+	go t.Run()
 	go t.Send(ping)
 
 	select {
 	case <-done:
 		s.debug.Log("maybeUpgrade", "channel `done` is triggered")
 		return true
-	case <-time.After(s.upgradeTimeout):
-		t.Close()
-		s.onError(fmt.Errorf("eio: upgrade failed: %w", errUpgradeTimeoutExceeded))
+	case <-expired:
 		return false
+	case <-time.After(s.upgradeTimeout):
+		if decide() {
+			fail(fmt.Errorf("eio: upgrade failed: %w", errUpgradeTimeoutExceeded))
+			return false
+		}
+		// Decided just now by the packet handler.
+		select {
+		case <-done:
+			return true
+		case <-expired:
+			return false
+		}
 	}
 }
 
